@@ -43,6 +43,7 @@ def run_case(case):
                     received=(obs['requests'][k][1].encode('latin-1')
                               if k < len(obs['requests']) else None),
                     completed=bool(o and o['phase'] == 'done' and not o['error']),
+                    well_formed=(ref['error'] is None and ex['method'] == 'GET'),
                     phase=pi, obs=o))
         files = warcharn.collect(wd)
         return dict(files=files, exlog=exlog, pobs=pobs)
@@ -104,6 +105,12 @@ def judge_c04(case, result):
         reqs = [r for r in recs if r.type == 'request']
         resps = [r for r in recs if r.type in ('response', 'revisit')]
         if not ex['completed']:
+            o = ex.get('obs')
+            ref = rfc7230.decode(ex['sent'], 'GET', eof=True)
+            if o is not None and ref['error'] is None and o.get('error') and \
+                    ex.get('well_formed'):
+                problems.append('%s: a well-formed exchange failed with %s, so its response '
+                                'was not archived' % (ex['url'], o['error']))
             continue
         if len(reqs) != 1 or len(resps) != 1:
             problems.append('%s: %d request and %d response/revisit records for one '
@@ -324,5 +331,49 @@ def run_concurrent(params, chooser):
     finally:
         net.uninstall()
         loop.uninstall()
+        warcharn.teardown_logging()
+        warcharn.cleanup(wd)
+
+
+# ---------------------------------------------------------------- FTP sessions
+def run_ftp_case(rec_params, steps):
+    """steps: list of 'file' | 'listing' | 'mlsd' | 'fail'.  The real FTP client with the
+    real recorder attached; returns (case, result) for the C05 judge."""
+    from vt import ftpharn
+    wd = warcharn.new_workdir()
+    warcharn.reset_ids()
+    try:
+        recorder, info = warcharn.make_recorder(rec_params, wd)
+        errors = []
+        listing = ('-rw-r--r-- 1 u g 5 Jan  1  2020 f.txt\r\n'
+                   'drwxr-xr-x 2 u g 4096 Jan  1  2020 sub\r\n')
+        for i, st in enumerate(steps):
+            if st == 'file':
+                obs = ftpharn.run_ftp('ftp://h.test/d/file%d.bin' % i,
+                                      {'data': 'payload-%d\x00\xff' % i}, recorder=recorder)
+            elif st == 'listing':
+                obs = ftpharn.run_ftp('ftp://h.test/d%d/' % i, {'listing': listing},
+                                      mode='listing', recorder=recorder)
+            elif st == 'mlsd':
+                obs = ftpharn.run_ftp('ftp://h.test/m%d/' % i,
+                                      {'mlsd': '150 here\r\n',
+                                       'listing': 'type=file;size=3; a.txt\r\n'},
+                                      mode='listing', recorder=recorder)
+            else:
+                obs = ftpharn.run_ftp('ftp://h.test/missing%d' % i,
+                                      {'retr_begin': '550 no such file\r\n'}, recorder=recorder)
+            if obs['error'] and obs['error'].startswith(('UNEXPECTED', 'CRASH')):
+                errors.append(obs['error'])
+        close_err = None
+        try:
+            recorder.close()
+        except Exception as e:
+            close_err = repr(e)
+        files = warcharn.collect(wd)
+        case = dict(phases=[dict(rec=rec_params, items=[])])
+        result = dict(files=files, exlog=[], pobs=[dict(recorder_close_error=close_err)],
+                      errors=errors)
+        return case, result
+    finally:
         warcharn.teardown_logging()
         warcharn.cleanup(wd)
